@@ -59,6 +59,10 @@ func runImpl(line string) (out string) {
 		return "bad-op"
 	}
 	f, ok := impls[toks[0]]
+	if !ok && strings.HasPrefix(toks[0], "g") {
+		// mirrored op: the same implementation call, compared with the REGENERATED Lean code instead of the hand model
+		f, ok = impls[toks[0][1:]]
+	}
 	if !ok {
 		return "bad-op"
 	}
